@@ -592,7 +592,7 @@ class IrToWasmCompiler:
         "I32TOF64": ["f64.convert_i32_s"],
         # int to float 32
         "I32TOF32": ["f32.convert_i32_s"],
-        "U32TOF32": ["f32.convert_i32_u"],
+        "U32TOF32": ["f32.convert_i64_u"],
         "I64TOF32": ["f32.convert_i64_s"],
         "U64TOF32": ["f32.convert_i64_u"],
         # float to float:
